@@ -226,7 +226,14 @@ func (c *connection) sendWaitReply(callerCtx context.Context, msg Message) (Mess
 	var ch chan replyResult
 	if !fireAndForget {
 		key := msg.SystemBytes()
-		ch = e.replies.register(key)
+
+		// The waiter's kind keeps a reply of the other kind with colliding System Bytes away from it.
+		kind := replyControl
+		if isData {
+			kind = replyData
+		}
+
+		ch = e.replies.register(key, kind)
 		defer e.replies.deregister(key)
 	}
 
